@@ -185,6 +185,9 @@ func aGenOps(t *rapid.T, e *aEnv, p aProfile, fresh *int) []aOp {
 		if tk != nil && len(tk.waiters) > 0 && x < holderPct+waiterPct {
 			return idIndex(tk.waiters[rapid.IntRange(0, len(tk.waiters)-1).Draw(t, label+"W")].id)
 		}
+		if tk != nil && len(tk.released) > 0 && x >= 82 && x < 90 {
+			return idIndex(tk.released[rapid.IntRange(0, len(tk.released)-1).Draw(t, label+"Rel")])
+		}
 		if x < 90 {
 			return rapid.IntRange(0, 5).Draw(t, label+"Pool")
 		}
@@ -222,6 +225,9 @@ func aGenOps(t *rapid.T, e *aEnv, p aProfile, fresh *int) []aOp {
 	if r < p.timers+(98-p.timers)*58/100 {
 		// LOCK
 		if p.bursts && pct(t, "burst") < 3 {
+			if pct(t, "burstReentrant") < 25 {
+				return aGenReentrantBurst(t, e, db, key, fresh)
+			}
 			return aGenBurst(t, e, db, key, fresh)
 		}
 		op := aOp{K: "lock", C: client, Db: db, Key: key}
@@ -278,6 +284,22 @@ func aGenOps(t *rapid.T, e *aEnv, p aProfile, fresh *int) []aOp {
 			op.F |= fSHOW | fUPDATE
 		case x < p.updBias+13:
 			op.F |= fCONCHECK
+		}
+		if tk != nil && op.F&(fUPDATE|fSHOW|fCONCHECK) == 0 {
+			if h := tk.holder(aLockId(op.Id)); h != nil && pct(t, "reentrantBias") < 65 {
+				// a re-lock of a live hold: make it succeed often (Rcount at or above the current depth)
+				op.TF &^= tfPRIO
+				op.Rc = rapid.SampledFrom([]int{h.depth, h.depth, h.depth + 1, 0xff, h.depth - 1}).Draw(t, "reentrantRc")
+				if op.Rc < 0 {
+					op.Rc = 0
+				}
+				if op.Rc > 0xff {
+					op.Rc = 0xff
+				}
+				if op.E == 0 {
+					op.E = 5
+				}
+			}
 		}
 		if pct(t, "lockVal") < p.values {
 			op.V = aGenValue(t, tk, key)
@@ -361,6 +383,11 @@ func aGenOps(t *rapid.T, e *aEnv, p aProfile, fresh *int) []aOp {
 	default:
 		op.Rc = rapid.IntRange(0, 255).Draw(t, "rcountUAny")
 	}
+	if tk != nil {
+		if h := tk.holder(aLockId(op.Id)); h != nil && h.depth > 1 && pct(t, "oneLevel") < 55 {
+			op.Rc = 1 // release one level of a re-entrant hold
+		}
+	}
 	x = pct(t, "unlockFlags")
 	switch {
 	case x < 9:
@@ -399,6 +426,23 @@ func aGenBurst(t *rapid.T, e *aEnv, db, key int, fresh *int) []aOp {
 			}
 		}
 		ops = append(ops, op)
+	}
+	return ops
+}
+
+// aGenReentrantBurst re-locks one LockId many times (Rcount 0xff) so that the depth reaches the 0xff ceiling,
+// then releases some levels one by one.
+func aGenReentrantBurst(t *rapid.T, e *aEnv, db, key int, fresh *int) []aOp {
+	*fresh++
+	id := 100 + *fresh
+	n := rapid.SampledFrom([]int{5, 20, 254, 255, 256, 258}).Draw(t, "reBurstN")
+	cnt := rapid.SampledFrom([]int{0, 3, 0xffff}).Draw(t, "reBurstCount")
+	var ops []aOp
+	for i := 0; i < n; i++ {
+		ops = append(ops, aOp{K: "lock", C: 0, Db: db, Key: key, Id: id, Cnt: cnt, Rc: 0xff, E: 90, T: 0})
+	}
+	for i := rapid.IntRange(0, 3).Draw(t, "reBurstUnlocks"); i > 0; i-- {
+		ops = append(ops, aOp{K: "unlock", C: 0, Db: db, Key: key, Id: id, Rc: 1})
 	}
 	return ops
 }
